@@ -474,6 +474,7 @@ CHECK = Check(
         "receiver statistics (C18 histories; received/lost/fraction/jitter/extended highest at every report). Restricted to "
         "histories whose live sequence numbers are less than half the space apart. Non-trivial = the shifted run really "
         "crosses the wrap (with faults for SCTP, with reordering for the jitter buffer, with a non-empty missing set for NACK)."
+        " Family reconfig-origin: channels closed (at idle instants) and created again with the RE-CONFIG request/response sequence numbers placed 0-3 below 2^32."
     ),
     families=[
         Family("serial16", run_serial, enumerate=enum_serial16, exhaustive_note="every 16-bit a x 15 boundary distances, both argument orders"),
